@@ -1,4 +1,5 @@
 import MidoProofs.SrcTie.Codec
+import MidoProofs.SrcTie.Msg
 #print axioms Mido.src_encode_pitchwheel
 #print axioms Mido.src_encode_sysex
 #print axioms Mido.src_encode_quarter_frame
@@ -12,3 +13,6 @@ import MidoProofs.SrcTie.Codec
 #print axioms Mido.src_decode_songpos
 #print axioms Mido.src_decode_pitchwheel
 #print axioms Mido.src_decode_dispatch
+#print axioms Mido.src_encode_message
+#print axioms Mido.src_decode_encode
+#print axioms Mido.src_decode_message
